@@ -24,7 +24,7 @@ import (
 func TestMain(m *testing.M) {
 	probeAllocBound()
 	if !allocBounded {
-		stats.Warn("container allocates the requested length even when less is held: requests and block lengths between 2^31 and 2^47 are not generated (they would kill the process with an unrecoverable out-of-memory error)")
+		stats.Warn("container allocates the requested length even when less is held: requests and block lengths between 2^31 and 2^48 are not generated (they would kill the process with an unrecoverable out-of-memory error)")
 	}
 	stats.Main(m)
 }
@@ -938,9 +938,9 @@ func (w *world) applyTo(o op, e *ent, name fmt.Stringer) {
 
 // allocBounded: the container does not allocate the requested length when less
 // is held. While that is not the case (open defect), lengths between 2^31 and
-// 2^47 would make the runtime die with "out of memory" (not recoverable, and
+// 2^48 would make the runtime die with "out of memory" (not recoverable, and
 // the driver calls that inconclusive), so the generators then only use
-// requests >= 2^48, which fail with a recoverable makeslice panic.
+// requests above 2^48, which fail with a recoverable makeslice panic.
 var allocBounded bool
 
 func probeAllocBound() {
